@@ -34,4 +34,12 @@ def main():
 
 
 if __name__ == "__main__":
-    main()
+    try:
+        main()
+    except SystemExit:
+        raise
+    except BaseException:      # a crash of the machinery is never a verdict: exit 2, not python's default 1
+        import traceback
+        traceback.print_exc()
+        print("HARNESS-ERROR (exit 2) uncaught exception in the check itself")
+        sys.exit(2)
